@@ -126,8 +126,8 @@ func (e *Env) GetEnvFromPath(path []string) (*Env, error) {
 		e.rwMutex.RLock()
 		value, ok = e.values[path[0]]
 		e.rwMutex.RUnlock()
-		if ok {
-			if found, isEnv := value.Interface().(*Env); isEnv {
+		if ok && value.IsValid() && value.CanInterface() {
+			if found, isEnv := value.Interface().(*Env); isEnv && found != nil {
 				e = found
 				break
 			}
@@ -143,8 +143,8 @@ func (e *Env) GetEnvFromPath(path []string) (*Env, error) {
 		e.rwMutex.RLock()
 		value, ok = e.values[path[i]]
 		e.rwMutex.RUnlock()
-		if ok {
-			if found, isEnv := value.Interface().(*Env); isEnv {
+		if ok && value.IsValid() && value.CanInterface() {
+			if found, isEnv := value.Interface().(*Env); isEnv && found != nil {
 				e = found
 				continue
 			}
